@@ -1,8 +1,8 @@
 use super::db_ops::store_user_in_db;
 use super::storage::AuthStorage;
 use super::types::{
-    AuthError, AuthResult, MAX_SECRET_KEY_LENGTH, MAX_USER_ID_LENGTH, PermissionCache, User,
-    UserCache, UserKey,
+    AuthError, AuthResult, BYPASS_USER_ID, MAX_SECRET_KEY_LENGTH, MAX_USER_ID_LENGTH,
+    PermissionCache, User, UserCache, UserKey,
 };
 use crate::shared::config::CONFIG;
 use std::collections::HashMap;
@@ -13,6 +13,11 @@ use tracing::{debug, info, warn};
 /// Validates user_id: non-empty, alphanumeric/underscore/hyphen, max MAX_USER_ID_LENGTH.
 fn validate_user_id(user_id: &str) -> AuthResult<()> {
     if user_id.is_empty() {
+        return Err(AuthError::InvalidUserId);
+    }
+
+    // Reserved: handlers skip permission checks for the bypass-mode identity
+    if user_id == BYPASS_USER_ID {
         return Err(AuthError::InvalidUserId);
     }
 
